@@ -6,7 +6,7 @@ from vx.unit import Unit
 from vx.extract import C, ExtractError
 
 PROPS = ['C13', 'C01']
-HEADER = 'use vstd::prelude::*;\nuse vstd::std_specs::iter::IteratorSpec;\nverus! {\n'
+HEADER = 'use vstd::prelude::*;\nuse vstd::string::*;\nuse vstd::std_specs::iter::IteratorSpec;\nverus! {\n'
 FOOTER = '\n} // verus!\nfn main() {}\n'
 PREDS = ['needs_escaping', 'needs_escaping_at_start', 'needs_ansi_c_quoting']
 TWIN_SUBST = [(r'\b(\w+)\.is_ascii_control\(\)', r'char_is_ascii_control_spec(\1)'), (r'\b(\w+)\.is_control\(\)', r'char_is_control_spec(\1)')]
@@ -25,9 +25,10 @@ def build(repo, findings):
         if re.search(r'avoid_ansi_c_quoting_newline\s*:\s*true', u.source(rel).text):
             raise ExtractError('a QuoteOptions constructor sets avoid_ansi_c_quoting_newline: true — the contract of quote() assumes it is never set')
     u.raw(HEADER)
+    u.prelude('quoting/reader_spec.rs')
     u.prelude('quoting/spec.rs')
     u.add(src.item(r'^pub enum QuoteMode ', 'QuoteMode').r1(keep_derive=()).resub(r'^\s*#\[default\]\n', '', 'R1', 'derive helper attribute dropped', count=None))
-    u.add(src.item(r'^pub\(crate\) struct QuoteOptions ', 'QuoteOptions').r1(keep_derive=()))
+    u.add(src.item(r'^pub\(crate\) struct QuoteOptions ', 'QuoteOptions').r1(keep_derive=()).r11_pub())
     # ---- the three character predicates: exec fn == its spec twin (same body text)
     for name in PREDS:
         hdr = r'^(?:const )?fn %s\(' % name
@@ -131,10 +132,28 @@ def build(repo, findings):
     if bs_ok(s@, |i: int, c: char| false, 0) { lemma_raw_read(s@); }
 }''')
     u.add(f)
+    # ---- the two public entry points (they build the options with struct-update syntax over the derived Default)
+    u.raw('''// #[derive(Default)] of QuoteOptions / QuoteMode (#[default] SingleQuote): all flags false.  ASSUMED (derive semantics).
+impl Default for QuoteOptions {
+    #[verifier::external_body]
+    fn default() -> (r: Self) ensures !r.always_quote && !r.avoid_ansi_c_quoting_newline && r.preferred_mode is SingleQuote { unimplemented!() }
+}
+pub broadcast axiom fn axiom_string_to_string(s: String, r: String)
+    requires #[trigger] vstd::string::to_string_from_display_ensures::<String>(&s, r),
+    ensures r@ == s@;
+''')
+    for name in ('force_quote', 'quote_if_needed'):
+        if not src.has(r'^pub fn %s\(' % name):
+            continue
+        g = src.item(r'^pub fn %s\(' % name, name).r1().r11().r17_cow()
+        g.sig(name, ret='res', requires=[C('aux value-has-no-NUL', 'no_nul(s@)')], ensures=[
+            C('C13 quoted-text-reads-back-as-the-value', 'reads_as(res@, s@)')])
+        g.at_body_start(name, 'broadcast use axiom_string_to_string;')
+        u.add(g)
     u.raw(FOOTER)
     u.assume('assume_specification', 'String::with_capacity(n) is empty; char::is_ascii_control is c <= 0x1f || c == 0x7f (std documented behaviour)')
     u.assume('external_body', 'R14 stubs str_any / str_first_is (the std predicate searches: true iff the predicate returned true for some / the first char), str_split_char (std str::split on a char), vx_fmt_backslash_octal3 (format!("\\\\{:03o}", byte)), vx_owned (String from &str/String with the same chars)')
     u.assume('axiom', 'a string has at most isize::MAX chars (needed for the R12 counter that replaces enumerate())')
-    u.assume('stub', 'force_quote / quote_if_needed (struct-update syntax with Default) and every caller that assembles declare -p / set / alias / trap -p / xtrace lines around quote() are NOT verified; printf %q with other arguments goes through uucore (third party); the reader is a spec function written from POSIX 2.2/2.3 and the bash manual, not brush\'s or bash\'s parser; history expansion is off')
+    u.assume('stub', 'every caller that assembles declare -p / set / alias / trap -p / xtrace lines around quote() are NOT verified; printf %q with other arguments goes through uucore (third party); the reader is a spec function written from POSIX 2.2/2.3 and the bash manual, not brush\'s or bash\'s parser; history expansion is off')
     u.expected_min_fns = 8
     return u
